@@ -62,7 +62,7 @@ package armor
 //@   ensures#always err != nil                                                                                                      [C08 C13]
 //@   ensures#suffix issuffix(r.r.$rem, old(r.r.$rem)) && len(r.r.$rem) <= len(old(r.r.$rem))
 //@   ensures#bounded len(old(r.r.$rem)) - len(r.r.$rem) <= 1024                                                                      [C08 C12 C14]
-//@   ensures#eof err == io.EOF ==> len(r.r.$rem) == 0 && len(old(r.r.$rem)) < 1024 && allspace(old(r.r.$rem))                        [C08]
+//@   ensures#eof err == io.EOF ==> len(r.r.$rem) == 0 && len(old(r.r.$rem)) < 1024 && allspace(old(r.r.$rem))                        [C08 C13]
 //@   modifies r.r.$rem, r.r.$bufd, r.r.$under.$rem
 
 //@ func (*armoredReader).Read(r, p) (n, err)
